@@ -1361,7 +1361,9 @@ impl<'a> Hist<'a> {
 fn run_history(seed: u64, shard: u64, hist: u64, n_ops: u64, m: &mut Monitor) {
     let mut rng = Rng::derive(seed, shard, hist);
     let mode_b = rng.chance(1, 2);
-    let delay0: u32 = *rng.pick(&[0u32, 0, 1, 2, 5, 10, 30, 60, 300, 3600]);
+    // short delays dominate (they let buffers mature inside a history); day / week / month / year / near-limit
+    // initial delays exercise `increase_delay` far from zero ("the delay can only increase")
+    let delay0: u32 = *rng.pick(&[0u32, 0, 1, 2, 5, 10, 30, 60, 300, 3600, 5, 60, 86_400, 604_800, 2_592_000, 31_536_000, u32::MAX / 2, u32::MAX - 7]);
     let mut w = World::bootstrap_store();
     let store = w.store;
     let approvers: Vec<Pubkey> = (0..3).map(|i| key(&format!("c36:approver:{i}"))).collect();
